@@ -315,6 +315,42 @@ static std::string handle(const std::vector<std::string>& a) {
     r += " leaked=" + std::to_string(spy.live.size()) + (spy.misuse ? " MISUSE" : "");
     return r;
   }
+  // RX <hex> : a raw value holding these bytes (serialized(...)), read through the typed MessagePack accessors
+  if (a[0] == "RX" && a.size() == 2) {
+    std::string raw = unhex(a[1]);
+    JsonDocument doc;
+    {
+      // exactly sized source block so that ASan sees any read past the raw bytes
+      char* exact = new char[raw.size() ? raw.size() : 1];
+      memcpy(exact, raw.data(), raw.size());
+      doc.set(serialized(std::string(exact, raw.size())));
+      delete[] exact;
+    }
+    MsgPackBinary b = doc.as<MsgPackBinary>();
+    MsgPackExtension e = doc.as<MsgPackExtension>();
+    std::string r = "bin=" + (b.data() ? "s" + hex((const char*)b.data(), b.size()) : std::string("-"));
+    r += " ext=" + (e.data() ? std::to_string((unsigned)(unsigned char)e.type()) + ":s" + hex((const char*)e.data(), e.size()) : std::string("-"));
+    if (doc.is<MsgPackBinary>() != (b.data() != nullptr) || doc.is<MsgPackExtension>() != (e.data() != nullptr)) r += " IS-DIFFERS";
+    return r;
+  }
+  // TB <hexpayload> / TX <type> <hexpayload> : bin / ext value built through the typed API; prints the stored value,
+  // its MessagePack serialization and the payload read back
+  if ((a[0] == "TB" && a.size() == 2) || (a[0] == "TX" && a.size() == 3)) {
+    bool ext = a[0] == "TX";
+    std::string pl = unhex(a.back());
+    JsonDocument doc;
+    char* exact = new char[pl.size() ? pl.size() : 1];
+    memcpy(exact, pl.data(), pl.size());
+    bool ok = ext ? doc.set(MsgPackExtension((int8_t)std::stoi(a[1]), exact, pl.size())) : doc.set(MsgPackBinary(exact, pl.size()));
+    delete[] exact;
+    (void)ok;
+    std::string out; size_t n = serializeMsgPack(doc, out);
+    std::string r = dump(doc.as<JsonVariantConst>()) + " " + hex(out) + " " + std::to_string(n) + " " + std::to_string(measureMsgPack(doc));
+    if (ext) { MsgPackExtension e = doc.as<MsgPackExtension>();
+               r += " back=" + (e.data() ? std::to_string((unsigned)(unsigned char)e.type()) + ":s" + hex((const char*)e.data(), e.size()) : std::string("-")); }
+    else { MsgPackBinary b = doc.as<MsgPackBinary>(); r += " back=" + (b.data() ? "s" + hex((const char*)b.data(), b.size()) : std::string("-")); }
+    return r;
+  }
   // MR <hex> : deserializeMsgPack then serializeMsgPack and serializeJson of the result
   if (a[0] == "MR" && a.size() == 2) {
     std::string input = unhex(a[1]);
